@@ -40,6 +40,7 @@ type Case struct {
 	StoreSkipVerify   bool   `json:"store_skip_verify"`  // --skip-verify-read
 	Wire              string `json:"wire"`               // plain: handler on the local store; cli: read-only servers get DedupQueue(StoreRouter(store)) like cmd/desync
 	Auth              string `json:"auth"`               // "" = not configured
+	Digest            string `json:"digest,omitempty"`   // "" = SHA512/256; "sha256" = desync.Digest / --digest sha256
 	Seed              uint64 `json:"seed"`               // content of the scratch tree
 	Reqs              []Req  `json:"reqs"`
 	// CLI != nil: the case is served by a real `desync chunk-server|index-server` process
@@ -416,6 +417,17 @@ func judge(o *hx.Outcome, c Case, i int, r Req, body []byte, hasBody bool, resp 
 	vi = verdictInfo{hostile: pathHostile || hdrHostile || bodyHostile, reached: s.Reached}
 
 	o.Class("method:"+strings.ToUpper(r.Method), "path:"+r.PClass, "body:"+r.Body)
+	if c.Server == "chunk" && isPut && r.Target == "X" && named && authorised && c.Writable {
+		// the body is what the other digest algorithm names that way: a bad upload for this server
+		dn := digestName(c.Digest)
+		o.Class("digest:" + dn + ":put:named-by-other-digest")
+		if !c.SkipVerifyWrite && status >= 400 && !stored {
+			o.Class("digest:" + dn + ":put:named-by-other-digest:refused")
+		}
+	}
+	if c.Server == "chunk" && isPut && named && authorised && stored && !badUpload {
+		o.Class("digest:" + digestName(c.Digest) + ":put:named-by-configured-digest:stored")
+	}
 	if c.Auth != "" {
 		o.Class("hdr:" + r.HClass)
 	} else {
@@ -513,6 +525,7 @@ func realHandler(e *env) http.Handler {
 var devNull, _ = os.OpenFile(os.DevNull, os.O_WRONLY, 0)
 
 func run(c Case) hx.Outcome {
+	defer setDigest(c.Digest)() // process-global; put back when the case is over
 	if c.CLI != nil {
 		return runCLI(c)
 	}
@@ -520,6 +533,13 @@ func run(c Case) hx.Outcome {
 		return runConc(c)
 	}
 	return runWith(c, realHandler)
+}
+
+func digestName(d string) string {
+	if d == "sha256" {
+		return "sha256"
+	}
+	return "sha512-256"
 }
 
 // sigFor makes the signature of a violated clause: "C15:chunk:…", "C15:index:…" for the library
@@ -616,6 +636,12 @@ func finishOutcome(o *hx.Outcome, c Case, descReqs []string, nontrivial bool, ob
 	flag(c.Writable, "cfg:writable", "cfg:readonly")
 	flag(c.Auth != "", "cfg:auth-set", "cfg:auth-unset")
 	if c.Server == "chunk" {
+		o.Class("digest:" + digestName(c.Digest))
+		if c.Writable && !c.SkipVerifyWrite && c.Conc == nil {
+			o.Class("digest:" + digestName(c.Digest) + ":" + map[bool]string{true: "compressed", false: "uncompressed"}[c.Compressed] + ":verify-write")
+		}
+	}
+	if c.Server == "chunk" {
 		flag(c.SkipVerifyWrite, "cfg:verify-write-off", "cfg:verify-write-on")
 		flag(c.Compressed, "cfg:compressed", "cfg:uncompressed")
 		flag(c.StoreUncompressed, "cfg:store-uncompressed", "cfg:store-compressed")
@@ -623,7 +649,7 @@ func finishOutcome(o *hx.Outcome, c Case, descReqs []string, nontrivial bool, ob
 	}
 	desc := map[string]any{"server": c.Server, "via": c.Via, "writable": c.Writable, "skip_verify_write": c.SkipVerifyWrite,
 		"compressed": c.Compressed, "store_uncompressed": c.StoreUncompressed, "wire": c.Wire, "auth_set": c.Auth != "",
-		"nreq": len(c.Reqs), "reqs": descReqs}
+		"nreq": len(c.Reqs), "reqs": descReqs, "digest": digestName(c.Digest)}
 	if c.CLI != nil {
 		desc["cli"] = map[string]any{"auth_via": c.CLI.AuthVia, "cfg_via": c.CLI.CfgVia, "long_flags": c.CLI.Long, "log": c.CLI.Log}
 	}
@@ -640,7 +666,7 @@ func finishOutcome(o *hx.Outcome, c Case, descReqs []string, nontrivial bool, ob
 var spec = &hx.Spec[Case]{
 	ID:    "C15",
 	Level: "exploration",
-	Rule: "cases = server configuration (chunk|index, writable, skip-verify-write, compressed, store format, authorization unset|set, plain or cmd/desync store wiring) " +
+	Rule: "cases = server configuration (chunk|index, writable, skip-verify-write, compressed, store format, digest sha512-256|sha256, authorization unset|set, plain or cmd/desync store wiring) " +
 		"driven directly (ServeHTTP with the literal URL.Path) or through a real http.Server + ServeMux(\"/\"), with 1..6 generated requests " +
 		"(method x path grammar x Authorization variants x body variants); the whole scratch tree (served directory, sentinel directory, files where '..' would land) " +
 		"is snapshotted around every request and store calls are recorded; " +
@@ -657,6 +683,9 @@ var spec = &hx.Spec[Case]{
 		"server:chunk", "server:index", "via:direct", "via:server",
 		"cfg:writable", "cfg:readonly", "cfg:verify-write-on", "cfg:verify-write-off", "cfg:compressed", "cfg:uncompressed", "cfg:auth-set", "cfg:auth-unset",
 		"cfg:wired-like-cli", "cfg:wired-plain",
+		"digest:sha512-256", "digest:sha256", "digest:sha256:uncompressed:verify-write", "digest:sha256:compressed:verify-write",
+		"digest:sha256:put:named-by-other-digest", "digest:sha256:put:named-by-other-digest:refused", "digest:sha512-256:put:named-by-other-digest:refused",
+		"digest:sha256:put:named-by-configured-digest:stored",
 		"method:GET", "method:HEAD", "method:PUT", "method:POST", "method:DELETE", "method:PATCH", "method:OPTIONS",
 		"path:well", "path:wrong-prefix", "path:wrong-suffix", "path:upper-hex", "path:short-id", "path:long-id", "path:dotdot", "path:encoded",
 		"path:double-slash", "path:trailing-slash", "path:empty", "path:long", "path:ctl", "path:subdir", "path:dots",
@@ -694,6 +723,10 @@ func baseConfigs() []Case {
 						}
 						out = append(out, Case{Server: "chunk", Via: via, Writable: w, SkipVerifyWrite: sv, Compressed: comp,
 							StoreUncompressed: !comp, StoreSkipVerify: true, Wire: wire, Auth: auth})
+						if via == "direct" || (w && !sv && auth == "") { // the second digest algorithm
+							out = append(out, Case{Server: "chunk", Via: via, Writable: w, SkipVerifyWrite: sv, Compressed: comp,
+								StoreUncompressed: !comp, StoreSkipVerify: true, Wire: wire, Auth: auth, Digest: "sha256"})
+						}
 					}
 				}
 			}
@@ -720,6 +753,8 @@ func TestEnum(t *testing.T) {
 			continue
 		}
 		base.Seed = uint64(1000 + ci)
+		restore := setDigest(base.Digest) // the paths and bodies below are made for this digest
+		defer restore()
 		u := chunkUniverse(base.Seed)
 		paths := func(target string) []pv {
 			if base.Server == "index" {
